@@ -41,6 +41,45 @@ def chunks(items, k):
         yield items[i:i + k]
 
 
+def relayout(v, how, depth=0):
+    """The same value with every NumPy array in another memory layout (contents unchanged)."""
+    import copy
+    import numpy as np
+    if depth > 12 or v is None or isinstance(v, (str, bytes, int, float, complex, bool, np.generic)):
+        return v
+    if isinstance(v, np.ndarray):
+        if v.dtype == object or v.ndim == 0 or v.size == 0:
+            return v
+        if how == "F":
+            return np.asfortranarray(v)
+        big = np.zeros(tuple(2 * n for n in v.shape), dtype=v.dtype)
+        view = big[tuple(slice(None, None, 2) for _ in v.shape)]
+        view[...] = v
+        return view
+    if isinstance(v, list):
+        return [relayout(x, how, depth + 1) for x in v]
+    if isinstance(v, tuple):
+        return tuple(relayout(x, how, depth + 1) for x in v)
+    if isinstance(v, dict):
+        return {k: relayout(x, how, depth + 1) for k, x in v.items()}
+    names = list(getattr(v, "__dict__", {}).keys())
+    for klass in type(v).__mro__:
+        names += [n for n in getattr(klass, "__slots__", ()) if isinstance(n, str)]
+    if not names or isinstance(v, type) or type(v).__module__ in ("datetime", "builtins", "enum"):
+        return v
+    import enum
+    if isinstance(v, enum.Enum):
+        return v
+    try:
+        c = copy.copy(v)
+        for n in names:
+            if hasattr(v, n):
+                object.__setattr__(c, n, relayout(getattr(v, n), how, depth + 1))
+        return c
+    except Exception:
+        return v
+
+
 def op_copy(mod, job):
     R, _ = classes(mod, job["proto"], job["in_fmt"])
     _, W = classes(mod, job["proto"], job["out_fmt"])
@@ -55,12 +94,16 @@ def op_copy(mod, job):
                 phase = "copy"
                 r.copy_to(w)
             else:
+                how = job.get("relayout", "")
                 for rd, wr, is_stream in step_methods(mod, job["proto"]):
                     phase = rd
                     if not is_stream:
-                        getattr(w, wr)(getattr(r, rd)())
+                        x = getattr(r, rd)()
+                        getattr(w, wr)(relayout(x, how) if how else x)
                         continue
                     items = list(getattr(r, rd)())
+                    if how:
+                        items = [relayout(x, how) for x in items]
                     phase = wr
                     if mode == "list":
                         getattr(w, wr)(items)
